@@ -186,6 +186,32 @@ theorem compat_complete (a b : Ty) (h : Compat a b) : typecompatible a b = true 
 /-- the executable spec predicate used by the check is the relation -/
 theorem spec_compatible_iff (a b : Ty) : compatible a b = true ↔ Compat a b := compatible_iff a b
 
+/-- full-strength completeness: two ASTs that denote compatible C types — taking into account that
+a qualified array type is an array of qualified elements (6.7.3p9, `Spec.normalize`) — are
+model-compatible -/
+def compat_complete_full : Prop :=
+  ∀ a b : Ty, compatibleN a b = true → typecompatible a b = true
+
+/-- `struct S { short a[2]; }; const struct S cs; const short (*p)[2] = &cs.a;` is rejected
+("base types of pointer assignment must be compatible"): `&cs.a` is built as pointer-to-(const
+array) while the declarator builds pointer-to-array-of-const, and `typecompatible` compares the
+two node by node (XXX in `expr.c:decay`: "qualifiers should be applied to the element type") -/
+theorem compat_complete_counterexample : ¬ compat_complete_full := by
+  intro h
+  have := h (.ptr { c := true } (.arr {} (.const 2) {} (.arith (.basic .short))))
+    (.ptr {} (.arr { c := true } (.const 2) {} (.arith (.basic .short)))) (by decide)
+  exact absurd this (by decide)
+
+/-- on ASTs in normal form — what the declarator parser builds — it does hold -/
+theorem compat_complete_partial (a b : Ty) (ha : normalize a = a) (hb : normalize b = b)
+    (h : compatibleN a b = true) : typecompatible a b = true := by
+  unfold compatibleN at h
+  rw [ha, hb, spec_compatible_eq] at h
+  exact h
+
+example : normalize (.ptr {} (.arr { c := true } (.const 2) {} (.arith (.basic .short)))) =
+    .ptr {} (.arr { c := true } (.const 2) {} (.arith (.basic .short))) := by decide
+
 /-- an enumerated type is compatible with its underlying type (both ways), with no other basic
 type, and with no other enumerated type -/
 theorem enum_compat (i j : Nat) (b b' : Basic) :
@@ -307,42 +333,14 @@ theorem member_qualifiers (arrow : Bool) (e o : Operand) (mty : Ty) (mq : Qual) 
     | (rw [decay_id _ hna hnf] at h; subst h; simp [memberQual])
     | (obtain ⟨_, h⟩ := h; rw [decay_id _ hna hnf] at h; subst h; simp [memberQual])
 
-/-- full-strength statement about `*e`: the result designates the referenced object, with the
-qualifiers of the referenced type (6.5.3.2p4) -/
-def deref_full : Prop :=
-  ∀ (sc : Bool) (e : Operand) (q : Qual) (b : Ty), e.ty = .ptr q b →
-    ∃ o, unaryOp sc .deref e = some o ∧ unaryOk sc .deref e o = true
-
-/-- `const int carr[2]; *carr` — the lvalue loses `const` (so `&*carr` is `int *` and `*carr = 5`
-is accepted): `mkunaryexpr(TMUL)` reuses the array designator and only replaces its type -/
-theorem deref_counterexample : ¬ deref_full := by
-  intro h
-  obtain ⟨o, ho, hk⟩ := h false (decay { ty := .arr { c := true } (.const 2) {} Ty.int, lvalue := true })
-    { c := true } Ty.int rfl
-  have : unaryOp false .deref (decay { ty := .arr { c := true } (.const 2) {} Ty.int, lvalue := true }) =
-      some { ty := Ty.int, lvalue := true } := by rfl
-  rw [this] at ho
-  cases ho
-  exact absurd hk (by decide)
-
-/-- everywhere else `*e` is right: in particular whenever the operand is not a decayed array
-whose element type is qualified -/
-theorem deref_partial (sc : Bool) (e : Operand) (q : Qual) (b : Ty) (he : e.ty = .ptr q b)
-    (hd : ∀ t dq, e.decayedFrom = some (t, dq) → dq = q) :
+/-- `*e` designates the referenced object or function with the qualifiers of the referenced type
+(6.5.3.2p4), then decays (6.3.2.1).  (Before fix `3bfdead`, `*carr` for `const int carr[2]` lost
+the `const`.) -/
+theorem deref_correct (sc : Bool) (e : Operand) (q : Qual) (b : Ty) (he : e.ty = .ptr q b) :
     ∃ o, unaryOp sc .deref e = some o ∧ unaryOk sc .deref e o = true := by
-  refine ⟨decay { ty := b, qual := q, lvalue := true }, ?_, ?_⟩
-  · simp only [unaryOp, he]
-    cases hdf : e.decayedFrom with
-    | none => rfl
-    | some p =>
-      obtain ⟨t, dq⟩ := p
-      have := hd t dq hdf
-      subst this; rfl
+  refine ⟨decay { ty := b, qual := q, lvalue := true }, by simp only [unaryOp, he], ?_⟩
   simp only [unaryOk, he]
   cases b <;> simp [decay, decayTy, Ty.isFunc, Qual.union]
-
-example : ∃ e : Operand, e.ty = .ptr { c := true } Ty.int ∧ ∀ t dq, e.decayedFrom = some (t, dq) → dq = { c := true } :=
-  ⟨{ ty := .ptr { c := true } Ty.int }, rfl, fun _ _ h => by cases h⟩
 
 /-! ## 7. Null pointer constants -/
 
